@@ -2,7 +2,7 @@
    This file holds only the statement, the property theorems and their non-vacuity examples.
    The vocabulary (never_removes_protected, only_whole_entries, accounts, meets_bound, wf, the defect
    classifiers) is defined in Model/C14.v next to the model of dirCache.clean. *)
-From PlzV Require Import Base.Harness Model.C14 Proof.C14.
+From PlzV Require Import Base.Harness Gen.CacheNames Model.C14 Proof.C14 Proof.C14_Interleave.
 From Coq Require Import Permutation.
 
 (* For every cache content (any listing of a directory tree: entry counts, sizes, access times,
@@ -82,3 +82,70 @@ Proof. exact w_tmp_refutes. Qed.
 Example C14_defect_rename_target :
   wf w_rename = true /\ defect_class w_rename = Some RenameTargetOccupied /\ ~ meets_bound isort w_rename.
 Proof. exact w_rename_refutes. Qed.
+
+(* ---- clean runs in a goroutine of its own: the loop interleaved with the process ------------------
+
+   The statements above take the marks as fixed while clean runs.  In the program clean is started with
+   `go` and the process keeps calling Retrieve and Store (each begins with markDir) while the eviction
+   loop works through the queue the walk produced.  Model: `run`, a list of labels, LIter = the loop body
+   for the next queued entry (interpreted statement by statement from Gen.CacheNames.evict_body, which
+   gotrans regenerates from dir_cache.go), LMark p size = a markDir call.
+
+   For every interleaving l1 ++ l2 of iterations and calls, every cache, all water marks, every order
+   of the queue: an item that lies at or below a path (final or temporary) some call made so far has
+   marked, and that is still in the cache directory after l1, is in the cache directory after l1 ++ l2.
+   The side conditions are those of C14_partial, for the calls of the whole run. *)
+Theorem C14_interleaved :
+  forall sorter : list entry -> list entry, (forall l, Permutation (sorter l) l) ->
+  forall (st : state) (l1 l2 : list label),
+  let whole := with_calls st (st_calls st ++ label_calls (l1 ++ l2)) in
+  wf whole = true -> d_ancestor whole = false -> d_tmp whole = false ->
+  let x1 := run (st_compress st) (st_low st) (start sorter st) l1 in
+  forall i, In i (cs_live x1) -> protected (with_calls st (cs_calls x1)) i ->
+            In i (cs_live (run (st_compress st) (st_low st) x1 l2)).
+Proof. exact interleaved_clean_safe. Qed.
+Print Assumptions C14_interleaved.
+
+(* An entry marked before its own iteration (after any prefix l1 of the run, whatever follows) keeps
+   everything that was below it when the call was made. *)
+Theorem C14_marked_before_iteration :
+  forall sorter : list entry -> list entry, (forall l, Permutation (sorter l) l) ->
+  forall (st : state) (l1 l2 : list label) (p : path) (sz : N),
+  let whole := with_calls st (st_calls st ++ label_calls (l1 ++ LMark p sz :: l2)) in
+  wf whole = true -> d_ancestor whole = false -> d_tmp whole = false ->
+  let x1 := run (st_compress st) (st_low st) (start sorter st) l1 in
+  forall i, In i (cs_live x1) -> is_prefix p (i_path i) = true ->
+            In i (cs_live (run (st_compress st) (st_low st) (start sorter st) (l1 ++ LMark p sz :: l2))).
+Proof. exact marked_before_iteration_survives. Qed.
+Print Assumptions C14_marked_before_iteration.
+
+(* Without calls during the loop the interleaved run is clean itself (so C14_partial speaks about it). *)
+Theorem C14_interleaved_static :
+  forall (sorter : list entry -> list entry) (st : state) (n : nat),
+  (length (sorter (entries_of st)) <= n)%nat ->
+  let x := run (st_compress st) (st_low st) (start sorter st) (repeat LIter n) in
+  let r := clean_with sorter st in
+  cs_live x = r_live r /\ cs_total x = r_total r /\ cs_removed x = rev (r_removed r) /\ cs_kept x = rev (r_kept r).
+Proof. exact run_no_events. Qed.
+Print Assumptions C14_interleaved_static.
+
+(* The skeleton the interleaving theorems are about is the one in the source (fails when clean changes). *)
+Example C14_loop_skeleton :
+  clean_phases = [PhWalk; PhReturnBelowHigh; PhSort; PhEvict; PhReturnTotal]
+  /\ evict_body = [EvSkipIfMarked; EvEvictOrSkip; EvSubtractSize; EvBreakBelowLow].
+Proof. exact (conj clean_phases_are evict_body_is). Qed.
+
+(* Non-vacuity of C14_interleaved: three old unmarked entries, everything is to go (low = 0).  Left alone
+   the loop empties the cache; a Retrieve of the third entry after the first eviction keeps it and its
+   file while the other two go; a Retrieve after its iteration finds nothing to keep. *)
+Example C14_interleaved_nonvacuous :
+  let whole := with_calls w_race (label_calls [w_race_mark]) in
+  wf whole = true /\ defect_class whole = None
+  /\ map e_path (cs_queue (start isort w_race)) =
+       [[s "cache"; s "pkg"; s "lib"; k_key]; [s "cache"; s "pkg"; s "lib"; k_key2]; [s "cache"; s "pkg"; s "lib"; k_key3]]
+  /\ length (cs_live (run false 0 (start isort w_race) [LIter; LIter; LIter])) = 3%nat
+  /\ map i_path (cs_live (run false 0 (start isort w_race) [LIter; w_race_mark; LIter; LIter])) =
+       [[s "cache"]; [s "cache"; s "pkg"]; [s "cache"; s "pkg"; s "lib"];
+        [s "cache"; s "pkg"; s "lib"; k_key3]; [s "cache"; s "pkg"; s "lib"; k_key3; s "out.a"]]
+  /\ length (cs_live (run false 0 (start isort w_race) [LIter; LIter; LIter; w_race_mark])) = 3%nat.
+Proof. exact w_race_ok. Qed.
